@@ -653,15 +653,17 @@ class ExprMixin:
             self.st.lel = z3.Store(self.st.lel, r, arr)
             self.st.llen = z3.Store(self.st.llen, r, ln)
             if elt is not None:
-                self.st.ghost.setdefault("comp_witness", {})[rid] = (idx, elt, seq)
+                self.st.ghost.setdefault("comp_witness", {})[rid] = {"idx": idx, "elt": elt, "seq": seq, "arr": arr, "len": ln,
+                                                                     "total": not g.ifs}
                 er = z3.simplify(Val.r(elt)) if z3.is_app(z3.simplify(elt)) and z3.simplify(elt).decl().name() == "VRef" else None
                 if er is not None and z3.is_int_value(er) and er.as_long() >= self._comp_alloc_mark and not pure:
                     # every element is an object created by its own iteration (for-each lifting)
                     jj = z3.Int("j!fresh")
                     ej = z3.Select(arr, jj)
                     tcls = z3.simplify(z3.Select(self.st.typeof, er))
+                    _lo, _hi = self.st.reserve_region()       # the objects the other iterations create live here
                     self.ctx.assume(z3.ForAll([jj], z3.Implies(z3.And(jj >= 0, jj < ln), z3.And(
-                        Val.is_VRef(ej), Val.r(ej) >= self._comp_alloc_mark, Val.r(ej) < self.st.next_id + 1000000,
+                        Val.is_VRef(ej), Val.r(ej) >= self._comp_alloc_mark, Val.r(ej) < _hi,
                         z3.Select(self.st.typeof, Val.r(ej)) == tcls))))
             return VRef(rid)
         finally:
